@@ -746,6 +746,7 @@ static void run_far_cells(void) {
 int main(int argc, char **argv) {
     vh_init(argc, argv);
     vh_sandbox_init();
+    vh_watchdog(60); /* a library call that makes no progress for a whole period is reported as a hang */
     vh_gb_init(0, (1u << 20) + 4096);
     run_pack();
     run_headers();
